@@ -894,7 +894,14 @@ where
                 let cell_ref = CellRef::from_raw(cell);
                 let size = cell_ref.total_size();
                 destination_offset -= size as usize;
-                self.write_item_to_offset(destination_offset as u64, cell_ref);
+                // A cell that slides by less than its own size overlaps its old
+                // position, so this must be a memmove, not a memcpy.
+                let src = cell.cast::<u8>().as_ptr();
+                let dst = self
+                    .item_at_offset(destination_offset as u64)
+                    .cast::<u8>()
+                    .as_ptr();
+                std::ptr::copy(src, dst, size);
             }
             self.slot_array_mut()[i] = destination_offset as u16;
         }
